@@ -89,3 +89,30 @@ PROPS["C04"] = dict(
     technique=_TECH, explanation="see level_text",
     assumptions=["run-stack depth assumption (contracts/coo_utils.py ROOM)"],
 )
+
+
+def reg(pid, functions, level, text, note, assumptions=()):
+    PROPS[pid] = dict(functions=functions, bounded=True, level=level, level_text=text, level_note=note, technique=_TECH, explanation=text, assumptions=list(assumptions))
+
+
+reg("C01", [M + "counts_to_csr_data", M + "lempel_ziv_based_encode"], "other",
+    "Deductive (unbounded): counts_to_csr_data emits exactly one (column, count) pair per phrase of the row and only ever adds columns (memory/key safety); "
+    "the LZ parse loop keeps start <= end. Bounded: every row-producing estimator of the catalogue (27 configurations + co-occurrence family, EdgeList, tree) is "
+    "fitted and then transformed on unseen tokens/characters/labels, empty items and items longer/shorter than training: row count, fitted width, per-item order, "
+    "dictionaries unchanged.",
+    "Trusted: pyvc, z3, numpy/scipy. The estimator-level glue (shape= arguments, keep-masks) is checked by the bounded driver only in this round.")
+reg("C02", [M + "contract_pair", M + "contract_and_count_pairs", M + "bpe_encode"], "other",
+    "Deductive (unbounded): the two BPE contraction kernels satisfy the same deterministic witness specification (greedy left-to-right, non-overlapping), which is the "
+    "kernel-level reason why replaying the merge list in transform reproduces the encodings of fit_transform. Bounded: fit returns the estimator and "
+    "fit_transform(X) == fit(X).transform(X) for the whole catalogue plus parameter grids (co-occurrence: orientation/kernel/window function/mask/n_iter/epsilon/threads; "
+    "Wasserstein: metric x input_method x memory_size x method; BPE: vocab x return_type; Ngram: n/mask/dictionary).",
+    "Trusted: pyvc, z3; numeric equality of SVD-compressed outputs is a bounded float comparison (1e-6).")
+reg("C05", [], "other",
+    "Bounded only in this round: the kept vocabulary is compared with an independent reference of the constraint semantics on seeded corpora x 17 constraint "
+    "combinations (with shuffled documents/tokens for order independence), and the 'count equal to the bound is kept' case is enumerated exhaustively for all "
+    "(count, total) pairs up to the stated bound through the real preprocess_token_sequences.",
+    "No function of this property is under a machine-checked contract yet (set/regex/np.where code is outside the current pyvc subset); everything reported is bounded.")
+reg("C06", ["vectorizers/coo_utils.py::sum_coo_entries"] if False else [], "other",
+    "Bounded only in this round: NgramVectorizer / SkipgramVectorizer / EdgeListVectorizer matrices against pure-python counts on seeded small corpora "
+    "(fit_transform and transform on unseen data), and '+' of two unigram models against a model fitted on the concatenated corpora.",
+    "No function of this property is under a machine-checked contract yet; everything reported is bounded.")
